@@ -406,10 +406,10 @@ def cached_interrupt(ctx, i):
     ctx.case({"cached-interrupt": auto, "b": type(backend).__name__}, True)
 
 
-def _with_backend(rng):
+def _with_backend(rng, kind=None):
     from hypergraph import DiskCache, InMemoryCache
 
-    if rng.random() < 0.5:
+    if kind == "mem" or (kind is None and rng.random() < 0.5):
         return InMemoryCache(), None
     tmp = tempfile.mkdtemp(prefix="hgc09-", dir=os.path.join(core.VERIF, ".work"))
     return DiskCache(tmp), tmp
@@ -583,6 +583,57 @@ def derive_after_cached_run(ctx, i):
     finally:
         _drop_backend(backend, tmp)
     ctx.case({"derive-after-run": True, "b": type(backend).__name__}, True)
+
+
+def unpicklable_depth(ctx, i):
+    """Values that pickle cannot serialise for a reason OTHER than their type - nesting deeper than the recursion limit
+    (pickle raises RecursionError), an object whose __getstate__ raises - as the OUTPUT of a cached node and as its
+    INPUT: the cached run completes like the uncached one (the entry is simply not stored / the call not keyed)."""
+    from hypergraph import FunctionNode, Graph, SyncRunner
+
+    rng = ctx.rng
+
+    class Stubborn:
+        def __getstate__(self):
+            raise RuntimeError("busy: cannot be serialised now")
+
+    def deep(n):
+        v = []
+        for _ in range(n):
+            v = [v]
+        return v
+
+    def depth_of(v):
+        d = 0
+        while isinstance(v, list) and v:
+            v, d = v[0], d + 1
+        return d
+
+    def make(n):
+        return deep(n) if n >= 0 else Stubborn()
+
+    def measure(v):
+        return depth_of(v) if isinstance(v, list) else "stubborn"
+
+    g = Graph([FunctionNode(make, name="make", output_name="v", cache=True), FunctionNode(measure, name="measure", output_name="d", cache=True)], name="deepg")
+    for n, kind in [(n_, k_) for n_ in (5, 20000, -1) for k_ in ("mem", "disk")]:
+        backend, tmp = _with_backend(rng, kind)
+        try:
+            for rep in range(2):
+                try:
+                    r = SyncRunner(cache=backend).run(g, {"n": n}, select=["d"])
+                    got = (r.status.value, r.values.get("d"), type(r.error).__name__ if r.error else None)
+                except BaseException as e:  # noqa: BLE001
+                    got = ("raised", type(e).__name__, None)
+                ctx.obs["cached_runs_compared"] += 1
+                ctx.obs["unpicklable_value_runs"] += 1
+                want = ("completed", n if n >= 0 else "stubborn", None)
+                if got != want:
+                    ctx.violation("C09:cached-differs-from-uncached:unserialisable-value", f"{type(backend).__name__}, run {rep}, n={n}: a cached node whose output / input cannot be serialised ({'nesting depth ' + str(n) if n >= 0 else '__getstate__ raises'}): {got}; the uncached run gives {want}", {"program": "unserialisable values through cached nodes", "n": n, "backend": type(backend).__name__})
+                    break
+        finally:
+            _drop_backend(backend, tmp)
+    ctx.case({"unserialisable-values": True}, True)
 
 
 def lru_recency(ctx, i):
@@ -873,6 +924,8 @@ def run(ctx):
             definition_pairs(ctx, i)
         elif i % 25 == 3:
             derive_after_cached_run(ctx, i)
+        elif i % 50 == 17:
+            unpicklable_depth(ctx, i)
         elif i % 20 == 12:
             permuted_wiring_identity(ctx, i)
         else:
